@@ -128,8 +128,7 @@ def _same(xs, ys):
 
 
 slice_arrays.natives = {"reference": _reference, "same": _same}
-slice_arrays.ensures_rt = ["same(result, reference(self, arrays, i))",
-                           "all(result[c] is arrays[c] for c in range(len(arrays)) if c not in self.sliced_inputs)"]
+slice_arrays.ensures_rt = ["same(result, reference(self, arrays, i))"]
 
 
 def _gen(rng):
